@@ -771,7 +771,8 @@ def fam_cache(v, n):
                  {"args": ["s"], "kwargs": [["do_extrapolate", a]]},
                  {"args": ["s"], "kwargs": [["do_uniquify", "b"], ["do_extrapolate", a]]}, {"args": ["s", a, "b"], "kwargs": []}]
         calls = [rng.choice(pool) for _ in range(rng.randint(4, 30))]
-        ops.append({"op": "cache_history", "calls": calls, "max": rng.choice([1, 2, 3, 4096]), "hit_cache": rng.random() < 0.4})
+        kind = rng.choice(["lru", "lru_kw", "hit"])     # lru_cache and lru_kw_cache are one state machine in the model
+        ops.append({"op": "cache_history", "calls": calls, "max": rng.choice([1, 2, 3, 4096]), "hit_cache": kind == "hit", "lru_kw": kind == "lru_kw"})
     return ops
 
 
